@@ -16,6 +16,9 @@ GEN = ['Chars', 'Units']
 OBLIGATIONS = ['PGA.Units.' + t for t in [
     'C10_tab_db_built', 'C10_tab_names', 'C10_tab_prefixes', 'C10_tab_units', 'C10_tab_collisions', 'C10_tab_gas_constant',
     'C10_tab_db_integral', 'C10_lookup_prefixed',
+    'C10_tab_new_units_accepted', 'C10_tab_new_units', 'C10_new_unit_changes_nothing', 'C10_ext_conservative',
+    'C10_tab_ext_spellings', 'C10_tab_ext_integral', 'C10_eval_render_ext', 'C10_tab_threshold',
+    'C10_exact_spellings_agree', 'C10_live_eq_ext_tree', 'C10_live_eq_ext',
     'C10_no_internal_outcome', 'C10_outcome_trichotomy', 'C10_malformed_rejected', 'C10_no_internal_outcome_text',
     'C10_parse_render', 'C10_eval_render', 'C10_eval_render_live', 'C10_eval_text', 'C10_eval_render_full_false',
     'C10_eval_render_fractional_partial',
@@ -23,7 +26,8 @@ OBLIGATIONS = ['PGA.Units.' + t for t in [
     'C10_in_with_units', 'C10_from_to_SI', 'C10_to_from_SI',
 ]]
 RULE = ('cases = unit/quantity expressions given to eval_qty and the conversion helpers: every unit name x every prefix '
-        '(exhaustive), every chain of <= 3 factors over a 12-name alphabet with every operator (*, /, juxtaposition) '
+        '(exhaustive; a live unit the SI reference does not know is checked against what its definition string means over the '
+        'reference extended by the new units before it, provided none of its spellings already had a meaning), every chain of <= 3 factors over a 12-name alphabet with every operator (*, /, juxtaposition) '
         '(bounded exhaustive), random trees of nesting depth <= 4 with numbers, prefixed names, parentheses and integer / '
         'negative / fractional / parenthesised powers, malformed variants (token deletion / insertion / duplication / swap, '
         'unbalanced parentheses, unknown names, inf, nan, 1..2, empty), random character strings for the scanner, and '
@@ -37,7 +41,9 @@ ASSUMPTIONS = ['decimal-literal abstraction: float arithmetic modelled by exact 
                'no single character outside `[.\\d]` is accepted by float() (re-validated on every run over all code points)']
 TRUSTED = ['modelled, not verified: UnitsParser (scanner, parse_expr/factor/base/name/number), eval_subtree, UnitsDB.lookup, '
            'builtin.py database construction, GenericQuantity.__mul__/__truediv__/__pow__/_build/in_units, helpers.py',
-           'PGA/Spec/SI.lean: the hand-written SI reference table (the specification)']
+           'PGA/Spec/SI.lean: the hand-written SI reference table (the specification)',
+           'PGA/Spec/SIExt.lean: the rule by which a unit the reference does not know gets its meaning from its definition '
+           '(no spelling of it may already have a meaning; the definition is read over the reference extended by the earlier new units)']
 
 ALPHA12 = [('name', '', 'm'), ('name', 'k', 'g'), ('name', '', 's'), ('name', '', 'K'), ('name', '', 'mol'), ('name', 'k', 'J'),
            ('name', '', 'cal'), ('name', 'c', 'm'), ('name', '', 'atm'), ('name', '', 'L'), ('name', '', 'min'), ('name', 'da', 'm')]
@@ -266,6 +272,107 @@ def gas_constant_check(ctx, si):
             ctx.violation('%s is not the SI value' % nm, {'const': nm}, w, c)
 
 
+# ------------------------------------------------------------------------------ names x prefixes; units the reference does not know
+def _plain(rep):
+    """a driver value as floats, for a violation record"""
+    if isinstance(rep, dict) and 'val' in rep:
+        return {'val': float(common.unjrat(rep['val'])), 'dim': [float(common.unjrat(x)) for x in rep['dim']]}
+    return rep
+
+
+def _differs(impl, rep, tol=0.0):
+    """the implementation's outcome is not the driver's value `rep` (relative tolerance `tol`)"""
+    if 'val' not in rep:
+        return impl.get('err') != rep.get('err')
+    want = float(common.unjrat(rep['val']))
+    return not ('val' in impl and L.dim_matches(impl['dim'], rep['dim'])
+                and abs(impl['val'] - want) <= (tol * 1.001 + 1e-9) * abs(want) + 1e-300)
+
+
+def new_unit_verdicts(ctx, si):
+    """a live unit the reference does not know means what its definition means over the reference extended by the new units
+    before it (PGA/Spec/SIExt.lean; the driver gives the verdicts).  Accepted ones join the table the oracle uses; a
+    definition that does not evaluate, or a name one of whose spellings already had a meaning, is a violation whose input is
+    that text."""
+    cov = {'new, consistent with their definitions': [], 'rejected': []}
+    for v in si.verdicts:
+        u, dfn = v['name'], v['definition']
+        if v['verdict'] == 'accepted':
+            ctx.count('new_units_consistent_with_their_definitions')
+            cov['new, consistent with their definitions'].append(
+                {'unit': u, 'definition': dfn, 'means': _plain({'val': v['value'], 'dim': v['dim']}), 'rel_tol': float(common.unjrat(v['tol']))})
+            continue
+        ctx.count('new_units_' + v['verdict'])
+        cov['rejected'].append({'unit': u, 'definition': dfn, 'verdict': v['verdict'], 'spelling': v.get('spelling'), 'outcome': v.get('outcome')})
+        if v['verdict'] == 'ambiguous':
+            sp = v['spelling']
+            reqs = [{'op': 'c10.eval_ext', 'text': sp}]
+            if isinstance(dfn, str):
+                reqs.append({'op': 'c10.eval_ext', 'text': dfn})
+            reps = ctx.model(reqs)
+            already = _plain(reps[0])
+            k = si.prefixes.get(sp[:len(sp) - len(u)], 0) if sp != u else 0
+            as_new = _plain(reps[1]) if len(reps) > 1 else None
+            if as_new and 'val' in as_new:
+                as_new = dict(as_new, val=as_new['val'] * 10.0 ** k)
+            ctx.case('new-unit:' + u, None)
+            ctx.violation('a new unit name takes over a spelling that already has a meaning' if sp == u else
+                          'a prefixed spelling of a new unit already has a meaning: one of the two readings is hidden',
+                          {'text': sp, 'new_unit': u, 'definition': dfn},
+                          {'already means': already, 'as the new unit (prefix x definition)': as_new}, impl_eval(sp))
+        elif v['verdict'] == 'bad_definition':
+            ctx.case('new-unit:' + u, None)
+            ctx.violation('the definition of a new unit does not evaluate over the units that have a meaning before it',
+                          {'text': dfn if isinstance(dfn, str) else u, 'new_unit': u, 'definition': dfn},
+                          'a value: the definition evaluates over the SI reference extended by the new units registered before it',
+                          {'definition over the extended reference': v.get('outcome'), 'package, %r' % u: impl_eval(u)})
+        elif v['verdict'] == 'not_a_word':
+            ctx.case('new-unit:' + u, None)
+            rep = ctx.model([{'op': 'c10.eval_ext', 'text': dfn}])[0] if isinstance(dfn, str) else {'definition': dfn}
+            ctx.violation('a new unit has a name that is not a word of the unit grammar ([a-zA-Z]+): no text denotes it',
+                          {'text': u, 'new_unit': u, 'definition': dfn}, {'as its definition': _plain(rep)}, impl_eval(u))
+        # 'unsupported' (irrational magnitude, non-positive magnitude or fractional exponent): nothing to compare exactly; the
+        # table obligation C10_tab_new_units_accepted does not hold and the run ends without a failing input
+    ctx.extra.setdefault('coverage', {})['new_units'] = cov
+    return cov
+
+
+def names_and_prefixes(ctx, si, batch):
+    from .gen.units import live
+    lv = live()
+    live_prefixes = [''] + [p for p, _ in lv['prefixes']]
+    live_units = list(lv['db_names'])
+    new_unit_verdicts(ctx, si)
+    judged = {v['name'] for v in si.verdicts}
+    undefined = []
+    for u in sorted(set(live_units) | set(si.units)):
+        for p in sorted(set(live_prefixes) | set(si.prefixes) | {''}):
+            text = p + u
+            if p != '' and p not in si.prefixes:
+                # a prefix the reference does not know
+                ctx.violation('prefix without an SI reference entry', {'text': text}, 'entry in PGA/Spec/SI.lean', impl_eval(text))
+            elif u in si.units:
+                # a reference unit (against the reference value) or an accepted new unit (against what its definition means)
+                check_tree(ctx, si, ('name', p, u), text, batch, 'name' if u in si.ref_units else 'new_name')
+            elif u in judged:
+                pass        # rejected: reported once by new_unit_verdicts
+            else:
+                # in the live database, not registered by builtin.py's lists: there is no definition to read.  The spelling
+                # must at least not change a meaning the extended reference gives
+                undefined.append(text)
+    if undefined:
+        reps = ctx.model([{'op': 'c10.eval_ext', 'text': t} for t in undefined])
+        for text, rep in zip(undefined, reps):
+            ctx.case('undefined:' + text, None)
+            ctx.count('units_registered_outside_builtin_lists')
+            r = impl_eval(text)
+            if 'val' in rep and _differs(r, rep, 1e-6):
+                ctx.violation('a unit registered outside the definition lists of builtin.py changes the meaning of a spelling the reference defines',
+                              {'text': text}, _plain(rep), r)
+    if set(live_units) != set(si.units) or set(live_prefixes) != set(si.prefixes) | {''}:
+        ctx.count('table_name_mismatch')
+
+
 # ------------------------------------------------------------------------------ run
 def run(ctx):
     with L.quiet():
@@ -284,20 +391,7 @@ def _run(ctx):
         ctx.count('corpus')
         _replay(ctx, si, rec, batch)
     # 1. every unit name x every prefix, exhaustively (names of the reference AND of the live tables)
-    from .gen.units import live
-    lv = live()
-    live_prefixes = [''] + [p for p, _ in lv['prefixes']]
-    live_units = list(lv['db_names'])
-    for u in sorted(set(live_units) | set(si.units)):
-        for p in sorted(set(live_prefixes) | set(si.prefixes) | {''}):
-            text = p + u
-            if u in si.units and (p == '' or p in si.prefixes):
-                check_tree(ctx, si, ('name', p, u), text, batch, 'name')
-            else:
-                # a unit or prefix the reference does not know: the live table has grown
-                ctx.violation('unit or prefix without an SI reference entry', {'text': text}, 'entry in PGA/Spec/SI.lean', impl_eval(text))
-    if set(live_units) != set(si.units) or set(live_prefixes) != set(si.prefixes) | {''}:
-        ctx.count('table_name_mismatch')
+    names_and_prefixes(ctx, si, batch)
     # 2. bounded exhaustive: chains of <= 3 factors over a 12-name alphabet, every operator
     ops = ['*', '/', 'j']
     for a in ALPHA12:
@@ -337,8 +431,12 @@ def _run(ctx):
         if ctx.time_left() < 120:
             break
     # 4. malformed: fixed list (expected: UnitsParseError), token mutations of valid expressions (outcome class only)
-    for text in MALFORMED:
-        check_text(ctx, text, batch, 'malformed_fixed', expect='unitsParse')
+    # (a text of the list that has a value over the extended reference is a unit a maintainer has added, not a malformed text)
+    ext = ctx.model([{'op': 'c10.eval_ext', 'text': t} for t in MALFORMED])
+    for text, rep in zip(MALFORMED, ext):
+        if 'val' in rep:
+            ctx.count('malformed_fixed_now_a_unit')
+        check_text(ctx, text, batch, 'malformed_fixed', expect=None if 'val' in rep else 'unitsParse')
     for i in range(ctx.n(2500, 120000)):
         toks = mutate(rng, rng.choice(trees))
         if any(len(t) > 4000 for t in toks):
@@ -397,7 +495,12 @@ def big_intermediate(text):
 def _replay(ctx, si, rec, batch):
     inp = rec.get('input', rec)
     before = len(ctx.violations)
-    if 'tree' in inp:
+    if 'new_unit' in inp:
+        # holds iff the driver (built from the tables of the last run) no longer rejects that unit
+        for v in si.verdicts:
+            if v['name'] == inp['new_unit'] and v['verdict'] != 'accepted':
+                ctx.violation('new unit %r: %s' % (v['name'], v['verdict']), inp, 'accepted', v)
+    elif 'tree' in inp:
         tree = json.loads(json.dumps(inp['tree']), object_hook=None)
         tree = to_tuple(tree)
         check_tree(ctx, si, tree, inp['text'], batch, 'replay')
@@ -459,7 +562,11 @@ def replay(ctx, rec):
 
 LEVEL_TEXT = ('Lean 4 theorems over an executable model of pgradd/Units: (tables, kernel-decided on the regenerated live tables) every '
               'unit name x every prefix resolves to 10^k times the hand-written SI reference value with the reference dimension, the '
-              'name collisions resolve to the unit, the prefix table is the SI one, the gas constant is R; (general, all inputs) the '
+              'name collisions resolve to the unit, the prefix table is the SI one, the gas constant is R; every live unit the reference '
+              'does not know takes over no existing spelling and has, with every prefix, the value its definition string means over the '
+              'extended reference; (general, all inputs) a unit none of whose spellings had a meaning changes the value of no expression, '
+              'the extended reference is a conservative extension of the reference by construction, the package and the extended reference '
+              'agree exactly on every expression over exactly defined units; the '
               'parser and evaluator are correct on every expression tree of any depth built from numbers, names, *, /, juxtaposition, '
               'parentheses and integer powers (render/parse round trip), every token list of any length ends in a value, the units '
               'parse error or an arithmetic error (no other outcome), conversion is the ratio of magnitudes and the there-and-back laws '
@@ -467,7 +574,11 @@ LEVEL_TEXT = ('Lean 4 theorems over an executable model of pgradd/Units: (tables
               'helpers. Right level: the quantifier is over all expressions and all names x prefixes, which only proof + exhaustive tables cover.')
 LEVEL_NOTE = ('Trusted: Lean kernel; standard axioms; translator of the live unit tables; the correspondence harness; the decimal-literal '
               'abstraction (float arithmetic as exact rationals, so rounding/overflow are not exhibited); PGA/Spec/SI.lean (the '
-              'reference table, with stated relative tolerances for units tied to measured constants). Partial: non-integer powers are '
-              'proved for magnitude-1 bases only (otherwise the value is irrational and only compared numerically); '
-              'in_units(with_units(x,u),u)=x is proved for x != 0 (with_units(0,u) returns a bare 0: F12, owned by C12).')
+              'reference table, with stated relative tolerances for units tied to measured constants) and PGA/Spec/SIExt.lean (a unit the '
+              'reference does not know means what its definition string means over the reference extended by the earlier new units, '
+              'provided none of its 21 spellings had a meaning: a unit with another value than its author intended is correct by '
+              'definition). Partial: non-integer powers are proved for magnitude-1 bases only (otherwise the value is irrational and only '
+              'compared numerically); a new unit with an irrational or non-positive magnitude or a fractional exponent, and a unit '
+              'registered outside the definition lists of builtin.py, is outside the table obligations (reported without a failing input '
+              'unless one of its spellings changes a meaning).')
 TECHNIQUE = 'Lean 4 proof over hand-written model + correspondence check + table translator'
